@@ -133,7 +133,48 @@ class SIInputs:
                     V.append(Violation("terminal-flux-SI", f"step {cur['step']}: boundary flux density on terminal {name!r} is {got[0]:.9g}, SI value 4 I/(K0 L) = {want:.9g}", terminal=name))
                     break
         self.checked += 1
+        V += self.dynamic_flux(sim, cur)
         return V
+
+    def _tri_setup(self, c):
+        if getattr(self, "_tri", None) is None:
+            rm = c.rm
+            edge_index = {}
+            for e, (i, j) in enumerate(rm.edges):
+                edge_index[(int(i), int(j))] = (e, 1.0)
+                edge_index[(int(j), int(i))] = (e, -1.0)
+            idx = np.zeros((len(rm.elements), 3), dtype=int)
+            sgn = np.zeros((len(rm.elements), 3))
+            for t, tri in enumerate(rm.elements):
+                for m, (a, b) in enumerate(((tri[0], tri[1]), (tri[1], tri[2]), (tri[2], tri[0]))):
+                    idx[t, m], sgn[t, m] = edge_index[(int(a), int(b))]
+            p = rm.sites[rm.elements]
+            area = 0.5 * ((p[:, 1, 0] - p[:, 0, 0]) * (p[:, 2, 1] - p[:, 0, 1]) - (p[:, 2, 0] - p[:, 0, 0]) * (p[:, 1, 1] - p[:, 0, 1]))
+            self._tri = (idx, sgn, area)
+        return self._tri
+
+    def on_update_start(self, sim, cur):
+        return []
+
+    def dynamic_flux(self, sim, cur):
+        """Time-dependent uniform fields (scale(t) x ConstantField): the potential recorded by
+        every update integrates around every triangle to 2 pi B(t) area / Phi_0."""
+        f = sim.scn["drive"]["field"]
+        if f["kind"] not in ("ramp", "pw", "sin") or "applied_vector_potential" not in cur["out"] or "gauge" in f:
+            return []
+        c = get_ctx(sim)
+        tree = B.field_to_tree(f)
+        scale_t = B.eval_tree(tree["l"], c.tctx, None, None, None, cur["time"])
+        idx, sgn, area = self._tri_setup(c)
+        A = np.asarray(cur["out"]["applied_vector_potential"])
+        line = np.einsum("ij,ij->i", A, c.rm.evec)
+        circ = np.sum(sgn * line[idx], axis=1)
+        want = 2 * np.pi * (f["B"] * float(scale_t) * si.PREFIX[c.fu]) * area * (c.xi * si.PREFIX[c.lu]) ** 2 / si.PHI0
+        ref = float(np.max(np.abs(want), initial=0.0))
+        err = float(np.max(np.abs(circ - want), initial=0.0))
+        if err > si.SI_TOL * ref + 1e-13:
+            return [Violation("flux-per-triangle", f"step {cur['step']} t={cur['time']:.5g}: gauge phase around a mesh triangle differs from 2 pi flux(t)/Phi_0 by {err / (ref + 1e-300):.3g} relative", field_units=c.fu, length_units=c.lu)]
+        return []
 
     def flux_per_triangle(self, sim, h):
         """Stored dimensionless applied potential integrates around every mesh triangle to
